@@ -16,7 +16,7 @@ PKG=$(head -3 $SRC/demo_seeded_test.go | grep -o -E '(ingest|search|api|graph|re
 echo "demo package dir: $PKG"
 res() { echo "$1"; }
 ( cd $WT && git apply $SRC/patch.diff ) || { echo "PATCH DOES NOT APPLY"; git -C /repo worktree remove --force $WT; exit 2; }
-SUITE=$(cd $M && go test -vet=off -count=1 $(go list ./... 2>/dev/null | grep -v -E 'gdal|/cmd/') 2>&1 | grep -v "^ok\|no test files" | head -10)
+SUITE=$(cd $M && go test -vet=off -count=1 -timeout 60m $(go list ./... 2>/dev/null | grep -v -E 'gdal|/cmd/') 2>&1 | grep -v "^ok\|no test files" | head -10)
 if [ -n "$SUITE" ]; then echo "SUITE WITH PATCH: NOT CLEAN"; echo "$SUITE"; else echo "SUITE WITH PATCH: all packages ok"; fi
 cp $SRC/demo_seeded_test.go $M/$PKG/zz_demo_seeded_test.go
 WITH=$(cd $M && go test -vet=off -count=1 -run "^($RUN)\$" ./$PKG/ 2>&1 | tail -3)
